@@ -434,14 +434,7 @@ impl Check for C04Check {
         // the decoders run on a thread with the stack an ordinary caller has (2 MiB, std's default
         // for spawned threads), not on the worker's 512 MiB stack: recursion whose depth the sender
         // controls must overflow here as it would there (process abort -> no-abort)
-        std::thread::scope(|sc| {
-            std::thread::Builder::new()
-                .stack_size(2 << 20)
-                .spawn_scoped(sc, || run_on_caller_stack(scenario, stats))
-                .expect("spawn runner thread")
-                .join()
-                .unwrap_or_else(|p| std::panic::resume_unwind(p))
-        })
+        simcore::driver::run_on_stack(2 << 20, "C04", || run_on_caller_stack(scenario, stats))
     }
 
     fn shrink(&self, scenario: &Value) -> Vec<Value> {
